@@ -214,7 +214,7 @@ PROPERTIES = {
         "runs": {
             "quick": [H("HarnessC19a", b(N=4, L=4), sample_every=100), H("HarnessC19a", b(N=3, L=3, BF=3)), H("HarnessC19a", b(N=4, L=3, FMT=1), sample_every=20), H("HarnessC19a", b(N=4, L=3, FMT=2), sample_every=20),
                       # a root without a top node (only the format clause applies); a loader that shares the writer's warm node cache
-                      H("HarnessC19a", b(N=0, L=3)), H("HarnessC19a", b(N=4, L=3, CACHE=1), sample_every=50), H("HarnessC19a", b(N=3, L=3, CACHE=1, FMT=1), sample_every=20)],
+                      H("HarnessC19a", b(N=0, L=3)), H("HarnessC19a", b(N=1, L=5), sample_every=20), H("HarnessC19a", b(N=2, L=6), sample_every=100), H("HarnessC19a", b(N=4, L=3, CACHE=1), sample_every=50), H("HarnessC19a", b(N=3, L=3, CACHE=1, FMT=1), sample_every=20)],
             "thorough": [H("HarnessC19a", b(N=5, L=5), sample_every=3000), H("HarnessC19a", b(N=3, L=3, BF=3)), H("HarnessC19a", b(N=5, L=3, CACHE=1), sample_every=3000), H("HarnessC19a", b(N=5, L=3, FMT=1), sample_every=1000), H("HarnessC19a", b(N=5, L=3, FMT=2), sample_every=1000)],
         },
         "must_reach": ["C19.rejected.unknown-format", "C19.rejected.unknown-format-empty-root", "C19.rejected.layer-below-height", "C19.rejected.top-missing", "C19.rejected.count-mismatch", "C19.rejected.not-ascending", "C19.rejected.not-ascending-under-configured-order", "C19.rejected.tie-under-configured-order", "C19.rejected.undecodable"],
